@@ -77,6 +77,7 @@ func (e *Engine) verifyFunc(ct *Contract) (res *FuncVC) {
 	st := &State{reach: "true", heaps: map[string]string{}, ghost: map[string]string{}}
 	st.alloc = c.decl("alloc0", "Int")
 	c.assume("true", fmt.Sprintf("(>= %s 1)", st.alloc))
+	c.epochAlloc[st.epoch] = st.alloc
 	if contractUsesGhost(ct) {
 		st.ghost["cpu"] = "0"
 		st.ghost["mem"] = "0"
@@ -88,9 +89,7 @@ func (e *Engine) verifyFunc(ct *Contract) (res *FuncVC) {
 		c.emit(fmt.Sprintf("(declare-const %s %s)", name, srt))
 		c.assumeRange("true", p.Type(), name, 0)
 		v := c.mkVal(p.Type(), name)
-		if _, isPtr := p.Type().Underlying().(*types.Pointer); isPtr {
-			c.assume("true", fmt.Sprintf("(< %s %s)", name, st.alloc))
-		}
+		c.assumeAllocated("true", st.alloc, p.Type(), name, 0)
 		args = append(args, v)
 		res.Params = append(res.Params, [2]string{p.Name(), name})
 		res.ParamT = append(res.ParamT, p.Type())
@@ -185,6 +184,7 @@ func (c *Ctx) frameObligations(fr *Frame, ct *Contract, rst *State, penv *SpecEn
 			if strings.HasPrefix(s, "heap(") {
 				if t := envOld.typeOf(argOf(e)); t != nil {
 					wholeHeap[c.heapKeyFor(t)] = true
+					wholeHeap[c.arrKeyFor(t)] = true
 				}
 				continue
 			}
